@@ -722,9 +722,8 @@ coap_oscore_new_pdu_encrypted_lkd(coap_session_t *session,
   if (coap_request) {
     association = oscore_find_association(session, &pdu_token);
     if (association) {
-      if (doing_observe && observe_value == 1) {
-        association->is_observe = 0;
-      }
+      /* The association now belongs to this request */
+      association->is_observe = doing_observe && observe_value != 1;
       /* Refresh the association */
       coap_delete_bin_const(association->nonce);
       association->nonce =
